@@ -16,6 +16,7 @@ CONSTANTS
   MaxCrashes = 0
   TrackHist = FALSE
   RecoveryAbortsOnLostRace = FALSE
+  IndexBeforeRoute = TRUE
 CONSTRAINT Bounded
 INVARIANT TypeOK
 INVARIANT NoParallelBody
